@@ -533,3 +533,39 @@ Example c17_async_tabix_example :
   let i := mktbi (Some h) [mkbref [(4681, [(10, 20)])] (Some (mkmeta 10 20 1 0)) [10]] None in
   CsiRead.async_tbi_case [2; 0; 1]%nat 5 (w_tbi_bytes i) = Some (reread_tbi i).
 Proof. vm_compute. reflexivity. Qed.
+
+(* ---- hostile indexes, bins OUTSIDE the geometry: reg2bins only marks bins of the scheme, so
+   ReferenceSequence::query never selects an out-of-geometry bin and its chunks enter no answer
+   (they influence a CSI query only through min_offset: c17_csi_reread_out_of_scheme_refuted) ---- *)
+From NV Require Import Index.HostileBinsProofs.
+
+Theorem c17_reg2bins_lt_max_id :
+  forall ms d qs qe x, 1 <= qe -> qe <= max_position ms d -> In x (reg2bins ms d qs qe) -> x < max_id d.
+Proof. exact reg2bins_lt_max_id. Qed.
+Print Assumptions c17_reg2bins_lt_max_id.
+
+Theorem c17_query_chunks_ignores_outside :
+  forall ms d bm ln lm qs qe, 1 <= qe -> qe <= max_position ms d ->
+    query_chunks ms d (mkref (filter (in_geometry d) bm) ln lm) qs qe
+    = query_chunks ms d (mkref bm ln lm) qs qe.
+Proof. exact query_chunks_ignores_outside. Qed.
+Print Assumptions c17_query_chunks_ignores_outside.
+
+(* ---- tie order, chunk lists without inverted chunks (start <= end; EMPTY chunks allowed): every
+   sorted permutation of the retained chunks merges to the same list, so `sort_unstable` cannot show
+   in the answer of optimize_chunks unless an inverted chunk shares its start with another chunk ---- *)
+From NV Require Import Index.ChunksTieProofs.
+
+Theorem c17_merge_sorted_tie_independent_noninv :
+  forall s1 s2, Permutation s1 s2 -> StronglySorted le_start s1 -> StronglySorted le_start s2 ->
+    Forall noninv s1 -> merge_sorted s1 = merge_sorted s2.
+Proof. exact merge_sorted_tie_independent_noninv. Qed.
+Print Assumptions c17_merge_sorted_tie_independent_noninv.
+
+Theorem c17_optimize_chunks_sort_independent_noninv :
+  forall cs m s,
+    (forall c, In c cs -> m < cend c -> noninv c) ->
+    Permutation s (retained m cs) -> StronglySorted le_start s ->
+    merge_sorted s = optimize_chunks cs m.
+Proof. exact optimize_chunks_sort_independent_noninv. Qed.
+Print Assumptions c17_optimize_chunks_sort_independent_noninv.
